@@ -42,6 +42,7 @@ def wfGo : E → Bool
   | dot x _ => FitsIn opCall x && wfGo x
   | index x y => FitsIn opCall x && wfGo x && wfGo y
   | group x => wfGo x
+  | opt a e => (e.chainVar? == some a) && wfGo e
 def wfGoItems : List E → Bool
   | [] => true
   | a :: t => FitsIn opAssign a && wfGo a && wfGoItems t
@@ -54,12 +55,18 @@ def isPlain : E → Bool
   | bin _ _ _ => true
   | _ => false
 
+/-- the printer keeps the variable at the root of a call/member chain (needed for `a?.b.c`: the chain written after
+    `?.` is still rooted at `a`) -/
+def Rv (e t : E) : Prop :=
+  ∀ a, a ≠ "undefined" → e.rootVar? = some a → t.rootVar? = some a ∧ (e.isLink = false → t.inner = .var a)
+
 /-- what the printer guarantees of its output `t` for the input `e` in a context of precedence `p` -/
 structure Inv (p : Prec) (e t : E) : Prop where
   g : gwfA t = true
   lv : FitsIn p e = true → levelOk p t = true
   tg : assignable e = true → isTarget t = true
   lo : isPlain e = true → p ≠ 0 → min e.prec 14 ≤ lvl t
+  rv : Rv e t
 
 /-- the invariant for an operand that fits its position -/
 structure InvF (p : Prec) (e t : E) : Prop where
@@ -67,9 +74,56 @@ structure InvF (p : Prec) (e t : E) : Prop where
   lv : levelOk p t = true
   tg : assignable e = true → isTarget t = true
   lo : isPlain e = true → p ≠ 0 → min e.prec 14 ≤ lvl t
+  rv : Rv e t
 
 theorem Inv.toF {p : Prec} {e t : E} (i : Inv p e t) (hf : FitsIn p e = true) : InvF p e t :=
-  ⟨i.g, i.lv hf, i.tg, i.lo⟩
+  ⟨i.g, i.lv hf, i.tg, i.lo, i.rv⟩
+
+/-- nodes that are not at the root of a chain on a variable -/
+theorem rv_none {e t : E} (h : e.rootVar? = none) : Rv e t := by
+  intro a _ ha; rw [h] at ha; cases ha
+
+theorem rootVar_dot (x : E) (n : String) : (E.dot x n).rootVar? = x.rootVar? := rfl
+theorem rootVar_index (x y : E) : (E.index x y).rootVar? = x.rootVar? := rfl
+theorem rootVar_call (f : E) (args : List E) : (E.call f args).rootVar? = f.rootVar? := rfl
+
+theorem isLink_of_chainVar {e : E} {a : String} (h : e.chainVar? = some a) : e.isLink = true ∧ e.rootVar? = some a := by
+  unfold E.chainVar? at h
+  split at h
+  · rename_i hl; exact ⟨hl, h⟩
+  · cases h
+
+theorem inner_var_not_link {x : E} {a : String} (h : x.inner = .var a) : x.isLink = false ∧ x.rootVar? = some a := by
+  cases x with
+  | var n => exact ⟨rfl, by simp only [E.inner] at h; simp [E.rootVar?, E.chainRoot, E.inner, h]⟩
+  | group y => exact ⟨rfl, by simp only [E.rootVar?, E.chainRoot, h]⟩
+  | _ => simp [E.inner] at h
+
+/-- the group case: the conditional rewritten inside the group is not a chain root -/
+theorem groupInner_rv (rw : E → Prec → Option E) (x x1 t : E) (hx1 : groupInner rw x = some x1) (h : Rv x1 t) :
+    Rv (.group x) t ∧ Rv (.group x) (.group t) := by
+  have key : ∀ a, a ≠ "undefined" → (E.group x).rootVar? = some a → t.rootVar? = some a ∧ t.inner = .var a := by
+    intro a ha hr
+    have hi : x.inner = .var a := by
+      simp only [E.rootVar?, E.chainRoot, E.inner] at hr
+      split at hr
+      · rename_i n hn; injection hr with hr; subst hr; exact hn
+      · cases hr
+    have hxx : x1 = x := by
+      unfold groupInner at hx1
+      cases x with
+      | cond c a b => simp [E.inner] at hi
+      | _ => simp at hx1; exact hx1.symm
+    subst hxx
+    obtain ⟨hnl, hrv⟩ := inner_var_not_link hi
+    obtain ⟨h1, h2⟩ := h a ha hrv
+    exact ⟨h1, h2 hnl⟩
+  constructor
+  · intro a ha hr
+    exact ⟨(key a ha hr).1, fun _ => (key a ha hr).2⟩
+  · intro a ha hr
+    have := (key a ha hr).2
+    exact ⟨by simp only [E.rootVar?, E.chainRoot, E.inner, this], fun _ => by simp only [E.inner, this]⟩
 
 /-! ## facts about the regenerated tables (whole-table `decide`) -/
 
@@ -115,6 +169,7 @@ theorem chainLvl_cases (x : E) : chainLvl x = 17 ∨ chainLvl x = 19 := by
   induction x using E.ind with
   | hdot x n ih => simpa [chainLvl] using ih
   | hindex x y ih _ => simpa [chainLvl] using ih
+  | hopt a e ih => simpa [chainLvl] using ih
   | hvar n => right; rfl
   | hlit l => right; rfl
   | hgroup x _ => right; rfl
@@ -126,10 +181,20 @@ theorem memberPrec_eq (x : E) : x.memberPrec = chainLvl x := by
   induction x using E.ind with
   | hdot x n ih => simpa [E.memberPrec, chainLvl] using ih
   | hindex x y ih _ => simpa [E.memberPrec, chainLvl] using ih
+  | hopt a e ih => simpa [E.memberPrec, chainLvl] using ih
   | hvar n => simp [E.memberPrec, chainLvl, c19, lvMember]
   | hlit l => simp [E.memberPrec, chainLvl, c19, lvMember]
   | hgroup x _ => simp [E.memberPrec, chainLvl, c19, lvMember]
   | _ => simp [E.memberPrec, chainLvl, c17, lvCall]
+
+/-- Go's `exprPrec` of a call/member link -/
+theorem prec_link (e : E) (h : e.isLink = true) : 17 ≤ e.prec := by
+  have c17 : opCall = 17 := by decide
+  cases e with
+  | call f a => simp only [E.prec]; rw [c17]; exact Nat.le_refl _
+  | dot x n => simp only [E.prec, memberPrec_eq]; have := chainLvl_cases x; pomega
+  | index x y => simp only [E.prec, memberPrec_eq]; have := chainLvl_cases x; pomega
+  | _ => simp [E.isLink] at h
 
 /-- a node whose level is the level of `&&` / `||` is such a node -/
 theorem node_of_level (op : BOp) (ha : op = .land ∨ op = .lor) (t : E) (h : lvl t = opLevel op) : sameOpNode op t = true := by
@@ -157,6 +222,7 @@ theorem node_of_level (op : BOp) (ha : op = .land ∨ op = .lor) (t : E) (h : lv
   | cond c x y => simp [lvl, lvAssign] at h; pomega
   | comma l => simp [lvl, lvExpr] at h; pomega
   | call f a => simp [lvl, lvCall] at h; pomega
+  | opt a e => simp [lvl, lvLHS] at h; pomega
 
 /-! ## from the level of the printed operand to the production's demand -/
 
@@ -308,6 +374,12 @@ theorem binCore_gwf (rec : E → Prec → Option E)
         | dot a n => exfalso; simp only [E.prec, memberPrec_eq] at hp5; have := chainLvl_cases a; pomega
         | index a b => exfalso; simp only [E.prec, memberPrec_eq] at hp5; have := chainLvl_cases a; pomega
         | group a => simp [E.isGroup] at h2
+        | opt a0 e0 =>
+          exfalso
+          simp only [wfGo, Bool.and_eq_true, beq_iff_eq] at hwx
+          have := prec_link e0 (isLink_of_chainVar hwx.1).1
+          simp only [E.prec] at hp5
+          pomega
       have hlo := ix.lo hplain (by pomega)
       have h14 : opLeft op ≤ 14 := by
         have : ∀ o ∈ BOp.all, opLeft o ≤ 14 ∨ opLeft o = o.left := by decide
@@ -488,11 +560,138 @@ structure RwOk (rw : E → Prec → Option E) : Prop where
   wf : ∀ e p r, p ≤ 17 → wfGo e = true → rw e p = some r → wfGo r = true
   fit : ∀ e p r, p ≤ 17 → wfGo e = true → FitsIn p e = true → rw e p = some r → FitsIn p r = true
   plain : ∀ e p r, rw e p = some r → (isPlain e = true ∨ assignable e = true) → r = e
+  chain : ∀ e p r, e.rootVar?.isSome = true → rw e p = some r → r = e
 
 theorem idRw_ok : RwOk idRw :=
   ⟨fun e p r _ hw h => by simp [idRw] at h; subst h; exact hw,
    fun e p r _ _ hf h => by simp [idRw] at h; subst h; exact hf,
-   fun e p r h _ => by simp [idRw] at h; exact h.symm⟩
+   fun e p r h _ => by simp [idRw] at h; exact h.symm,
+   fun e p r _ h => by simp [idRw] at h; exact h.symm⟩
+
+/-- the result of a link case is a link -/
+theorem descLink_isLink (rec : E → Prec → Option E) (e : E) (p : Prec) (t : E) (h : descLink rec e p = some t) :
+    t.isLink = true := by
+  cases e with
+  | dot x name =>
+    simp only [descLink] at h
+    split at h
+    · split at h
+      · injection h with h; subst h; rfl
+      · cases h
+    · cases hx : rec x (if opMember ≤ p then opMember else opCall) with
+      | none => simp [hx] at h
+      | some x' => simp [hx] at h; subst h; rfl
+  | index x y =>
+    simp only [descLink] at h
+    split at h
+    · cases h
+    · split at h
+      · split at h
+        · injection h with h; subst h; rfl
+        · cases hy : rec y opExpr with
+          | none => simp [hy] at h
+          | some y' => simp [hy] at h; subst h; rfl
+      · cases hy : rec y opExpr with
+        | none => simp [hy] at h
+        | some y' => simp [hy] at h; subst h; rfl
+  | call f args =>
+    simp only [descLink] at h
+    split at h
+    · injection h with h; subst h; rfl
+    · cases h
+  | _ => simp [descLink] at h
+
+/-- the member / index / call cases of the printer keep the invariant -/
+theorem descLink_gwf (rec : E → Prec → Option E)
+    (hrec : ∀ e p t, p ≤ 17 → wfGo e = true → rec e p = some t → Inv p e t)
+    (e : E) (p : Prec) (t : E) (hp : p ≤ 17) (hw : wfGo e = true)
+    (h : descLink rec e p = some t) : Inv p e t := by
+  obtain ⟨c0, c1, c2, c5, c14, c17, c19, c4, c3⟩ := consts
+  have hrecF : ∀ e p t, p ≤ 17 → wfGo e = true → FitsIn p e = true → rec e p = some t → InvF p e t :=
+    fun e p t hp hw hf h => (hrec e p t hp hw h).toF hf
+  cases e with
+  | dot x name =>
+    simp only [wfGo, Bool.and_eq_true] at hw
+    obtain ⟨hfx, hwx⟩ := hw
+    simp only [descLink] at h
+    cases hd : dotNumObj x with
+    | some n =>
+      simp only [hd] at h
+      split at h
+      · injection h with h; subst h
+        exact ⟨by simp [gwfA, lvl, lvCall, lvPrimary], fun _ => levelOk_of_le (by simp [lvl, chainLvl, lvMember]; pomega),
+          fun _ => rfl, fun _ _ => Nat.le_trans (Nat.min_le_right _ _) (by simp [lvl, chainLvl, lvMember]), rv_none (by unfold dotNumObj at hd; split at hd <;> first | rfl | cases hd)⟩
+      · cases h
+    | none =>
+      simp only [hd] at h
+      have hpp : (if opMember ≤ p then opMember else opCall) = 17 := by
+        rw [c19, c17]; split <;> (try pomega) <;> rfl
+      rw [hpp] at h
+      cases hx : rec x 17 with
+      | none => simp [hx] at h
+      | some x' =>
+        simp [hx] at h
+        subst h
+        have ix := hrecF _ _ _ (Nat.le_refl _) hwx (by rw [c17] at hfx; exact hfx) hx
+        have l17 : 17 ≤ lvl x' := levelOk_mono ix.lv (Nat.le_refl _) (by decide)
+        have := chainLvl_cases x'
+        exact ⟨by simp [gwfA, ix.g, lvCall, l17], fun _ => levelOk_of_le (by simp [lvl]; pomega), fun _ => rfl,
+          fun _ _ => (by simp [lvl]; pomega), (fun a ha hr => ⟨(ix.rv a ha hr).1, fun hl => by simp [E.isLink] at hl⟩)⟩
+  | index x y =>
+    simp only [wfGo, Bool.and_eq_true] at hw
+    obtain ⟨⟨hfx, hwx⟩, hwy⟩ := hw
+    simp only [descLink] at h
+    have hpp : (if p < opMember then opCall else opMember) = 17 := by
+      rw [c19, c17]; split <;> (try pomega) <;> rfl
+    rw [hpp] at h
+    cases hx : rec x 17 with
+    | none => simp [hx] at h
+    | some x' =>
+      simp only [hx] at h
+      have ix := hrecF _ _ _ (Nat.le_refl _) hwx (by rw [c17] at hfx; exact hfx) hx
+      have l17 : 17 ≤ lvl x' := levelOk_mono ix.lv (Nat.le_refl _) (by decide)
+      have hc := chainLvl_cases x'
+      have dotcase : ∀ s0, Inv p (.index x y) (.dot x' s0) := fun s0 =>
+        ⟨by simp [gwfA, ix.g, lvCall, l17], fun _ => levelOk_of_le (by simp [lvl]; pomega), fun _ => rfl,
+          fun _ _ => (by simp [lvl]; pomega), (fun a ha hr => ⟨(ix.rv a ha hr).1, fun hl => by simp [E.isLink] at hl⟩)⟩
+      have idxcase : ∀ o : Option E, o = rec y opExpr → o.map (E.index x') = some t → Inv p (.index x y) t := by
+        intro o ho hm
+        cases o with
+        | none => simp at hm
+        | some y' =>
+          simp at hm; subst hm
+          have iy := hrecF _ _ _ (by rw [c0]; pomega) hwy (by simp [FitsIn, c0]) ho.symm
+          exact ⟨by simp [gwfA, ix.g, iy.g, lvCall, l17], fun _ => levelOk_of_le (by simp [lvl]; pomega), fun _ => rfl,
+            fun _ _ => (by simp [lvl]; pomega), (fun a ha hr => ⟨(ix.rv a ha hr).1, fun hl => by simp [E.isLink] at hl⟩)⟩
+      cases hs : strLit? y with
+      | some s0 =>
+        simp only [hs] at h
+        split at h
+        · injection h with h; subst h; exact dotcase s0
+        · exact idxcase _ rfl h
+      | none =>
+        simp only [hs] at h
+        exact idxcase _ rfl h
+  | call f args =>
+    simp only [wfGo, Bool.and_eq_true] at hw
+    obtain ⟨⟨hff, hwf⟩, hwa⟩ := hw
+    simp only [descLink] at h
+    cases hf' : rec f opCall with
+    | none => simp [hf'] at h
+    | some f' =>
+      cases ha : mapO (fun a => rec a opAssign) args with
+      | none => simp [hf', ha] at h
+      | some args' =>
+        simp [hf', ha] at h
+        subst h
+        have i1 := hrecF _ _ _ (by rw [c17]; pomega) hwf hff hf'
+        have l17 : 17 ≤ lvl f' := by
+          have := levelOk_mono i1.lv (Nat.le_refl _) (by rw [c17]; decide)
+          rw [c17] at this; exact this
+        obtain ⟨ga, _⟩ := mapO_items rec hrec args args' ha hwa
+        exact ⟨by simp [gwfA, i1.g, ga, lvCall, l17], fun _ => levelOk_of_le (by simp [lvl, lvCall]; pomega),
+          fun ha' => by simp [assignable, E.inner] at ha', fun _ _ => (by simp [lvl, lvCall]; pomega), (fun a ha hr => ⟨(i1.rv a ha hr).1, fun hl => by simp [E.isLink] at hl⟩)⟩
+  | _ => simp [descLink] at h
 
 /-- one step of the printer keeps the invariant if the recursive calls do -/
 theorem descend_gwf (rw : E → Prec → Option E) (hok : RwOk rw) (rec : E → Prec → Option E)
@@ -510,7 +709,7 @@ theorem descend_gwf (rw : E → Prec → Option E) (hok : RwOk rw) (rec : E → 
       have hlt : ¬ (opMember < p) := (by rw [c19]; pomega)
       rw [if_neg hlt] at h
       injection h with h; subst h
-      refine ⟨undefIdx_ok.1, fun _ => levelOk_of_le (by rw [undefIdx_ok.2]; pomega), ?_, ?_⟩
+      refine ⟨undefIdx_ok.1, fun _ => levelOk_of_le (by rw [undefIdx_ok.2]; pomega), ?_, ?_, (fun a ha h => by simp only [E.rootVar?, E.chainRoot, E.inner, Option.some.injEq] at h; subst h; exact absurd (by simpa using hu) ha)⟩
       · intro ha; rw [assignable_not_undefined n hu] at ha; cases ha
       · intro _ _; rw [undefIdx_ok.2]; pomega
     · rw [if_neg hu] at h
@@ -518,12 +717,12 @@ theorem descend_gwf (rw : E → Prec → Option E) (hok : RwOk rw) (rec : E → 
       · cases h
       · injection h with h; subst h
         exact ⟨rfl, fun _ => levelOk_of_le (by simp [lvl, lvPrimary]; pomega), fun _ => rfl,
-          fun _ _ => (by simp [lvl, lvPrimary]; pomega)⟩
+          fun _ _ => (by simp [lvl, lvPrimary]; pomega), (fun a _ h => ⟨h, fun _ => by simp only [E.rootVar?, E.chainRoot, E.inner, Option.some.injEq] at h; subst h; rfl⟩)⟩
   | lit l =>
     have hna : assignable (.lit l) = false := by simp [assignable, E.inner]
     have prim : ∀ l', Inv p (.lit l) (.lit l') := fun l' =>
       ⟨rfl, fun _ => levelOk_of_le (by simp [lvl, lvPrimary]; pomega), fun ha => (by rw [hna] at ha; cases ha),
-        fun _ _ => (by simp [lvl, lvPrimary]; pomega)⟩
+        fun _ _ => (by simp [lvl, lvPrimary]; pomega), rv_none rfl⟩
     have notn : ∀ k, descend rw rec (.lit l) p =
         some (if opUnary < p then E.group (.unary .not (.lit (.num k))) else .unary .not (.lit (.num k))) → Inv p (.lit l) t := by
       intro k hk
@@ -531,11 +730,11 @@ theorem descend_gwf (rw : E → Prec → Option E) (hok : RwOk rw) (rec : E → 
       injection h with h; subst h
       split
       · exact ⟨(by simp [gwfA, isUpdateOp, lvl, lvUnary, lvPrimary]), fun _ => levelOk_of_le (by simp [lvl, lvPrimary]; pomega), fun ha => (by rw [hna] at ha; cases ha),
-          fun _ _ => (by simp [lvl, lvPrimary]; pomega)⟩
+          fun _ _ => (by simp [lvl, lvPrimary]; pomega), rv_none rfl⟩
       · rename_i hlt
         have : p ≤ 14 := by rw [c14] at hlt; pomega
         exact ⟨(by simp [gwfA, isUpdateOp, lvl, lvUnary, lvPrimary]), fun _ => levelOk_of_le (by simp [lvl, isUpdateOp, lvUnary]; pomega),
-          fun ha => (by rw [hna] at ha; cases ha), fun _ _ => Nat.le_trans (Nat.min_le_right _ _) (by simp [lvl, isUpdateOp, lvUnary])⟩
+          fun ha => (by rw [hna] at ha; cases ha), fun _ _ => Nat.le_trans (Nat.min_le_right _ _) (by simp [lvl, isUpdateOp, lvUnary]), rv_none rfl⟩
     cases l with
     | true => exact notn 0 (by simp [descend])
     | false => exact notn 1 (by simp [descend])
@@ -581,7 +780,7 @@ theorem descend_gwf (rw : E → Prec → Option E) (hok : RwOk rw) (rec : E → 
           simp only [hh] at h
           obtain ⟨g, l1, l2⟩ := binCore_gwf rec hrec op y x t hwx hfx hwy hfy ha h
           exact ⟨g, lev t l1 l2, fun ha' => (by rw [hna] at ha'; cases ha'),
-            fun _ _ => by rw [hprec]; exact Nat.le_trans (Nat.min_le_left _ _) l1⟩
+            fun _ _ => by rw [hprec]; exact Nat.le_trans (Nat.min_le_left _ _) l1, rv_none rfl⟩
         | some l =>
           simp only [hh] at h
           have hp0 : p = 0 := by
@@ -637,7 +836,7 @@ theorem descend_gwf (rw : E → Prec → Option E) (hok : RwOk rw) (rec : E → 
                   (by intro hop; rw [hnal] at hop; cases hop) hb
                 obtain ⟨gi, hleni⟩ := mapO_items rec hrec l.dropLast init' hi (wfGoItems_dropLast l hitems)
                 have h1 : 1 ≤ lvl b' := Nat.le_trans (t_assign op).2 l1
-                refine ⟨?_, ?_, fun ha' => (by rw [hna] at ha'; cases ha'), fun _ hne => absurd hp0 hne⟩
+                refine ⟨?_, ?_, fun ha' => (by rw [hna] at ha'; cases ha'), fun _ hne => absurd hp0 hne, rv_none rfl⟩
                 · simp only [gwfA, gwfAItems_append, gwfAItems, gi, gb, Bool.and_true, Bool.true_and, Bool.and_eq_true,
                     decide_eq_true_eq, List.length_append, List.length_cons, List.length_nil, hleni,
                     List.length_dropLast]
@@ -674,7 +873,7 @@ theorem descend_gwf (rw : E → Prec → Option E) (hok : RwOk rw) (rec : E → 
         have l14 : 14 ≤ lvl x' := levelOk_mono ix.lv u2 (by pomega)
         have larg : op.argPrec ≤ lvl x' := levelOk_mono ix.lv (Nat.le_refl _) (by pomega)
         have hlv : lvl (E.unary op x') = op.prec := by simp [lvl, u3, lvUpdate, lvUnary]
-        refine ⟨?_, fun hf => levelOk_of_le (by rw [hlv]; exact hple hf), fun ha' => (by rw [hna] at ha'; cases ha'), ?_⟩
+        refine ⟨?_, fun hf => levelOk_of_le (by rw [hlv]; exact hple hf), fun ha' => (by rw [hna] at ha'; cases ha'), ?_, rv_none rfl⟩
         · simp only [gwfA, ix.g, Bool.and_true, Bool.and_eq_true, decide_eq_true_eq]
           refine ⟨?_, by simpa [lvUnary] using l14⟩
           split
@@ -702,7 +901,7 @@ theorem descend_gwf (rw : E → Prec → Option E) (hok : RwOk rw) (rec : E → 
           have hop : op = .void := hv.1
           subst hop
           exact ⟨undefIdx_ok.1, fun _ => levelOk_of_le (by rw [undefIdx_ok.2]; pomega), fun ha' => (by rw [hna] at ha'; cases ha'),
-            fun _ _ => (by rw [undefIdx_ok.2]; pomega)⟩
+            fun _ _ => (by rw [undefIdx_ok.2]; pomega), rv_none rfl⟩
         · cases hn : (if op == .not then notLit x else none) with
           | some r =>
             simp only [hn] at h
@@ -716,77 +915,17 @@ theorem descend_gwf (rw : E → Prec → Option E) (hok : RwOk rw) (rec : E → 
               split at hn
               · injection hn with hn; subst hn
                 exact ⟨by simp [gwfA, isUpdateOp, lvl, lvUnary, lvPrimary], fun hf => levelOk_of_le (by have := hp14 hf; simp [lvl, isUpdateOp, lvUnary]; pomega),
-                  fun ha' => (by rw [hna] at ha'; cases ha'), fun _ _ => Nat.le_trans (Nat.min_le_right _ _) (by simp [lvl, isUpdateOp, lvUnary])⟩
+                  fun ha' => (by rw [hna] at ha'; cases ha'), fun _ _ => Nat.le_trans (Nat.min_le_right _ _) (by simp [lvl, isUpdateOp, lvUnary]), rv_none rfl⟩
               · injection hn with hn; subst hn
                 exact ⟨by simp [gwfA, isUpdateOp, lvl, lvUnary, lvPrimary], fun hf => levelOk_of_le (by have := hp14 hf; simp [lvl, isUpdateOp, lvUnary]; pomega),
-                  fun ha' => (by rw [hna] at ha'; cases ha'), fun _ _ => Nat.le_trans (Nat.min_le_right _ _) (by simp [lvl, isUpdateOp, lvUnary])⟩
+                  fun ha' => (by rw [hna] at ha'; cases ha'), fun _ _ => Nat.le_trans (Nat.min_le_right _ _) (by simp [lvl, isUpdateOp, lvUnary]), rv_none rfl⟩
               · cases hn
             · rw [if_neg hop] at hn; cases hn
           | none =>
             simp only [hn] at h
             exact genm _ rfl h
-  | dot x name =>
-    simp only [wfGo, Bool.and_eq_true] at hw
-    obtain ⟨hfx, hwx⟩ := hw
-    simp only [descend] at h
-    cases hd : dotNumObj x with
-    | some n =>
-      simp only [hd] at h
-      split at h
-      · injection h with h; subst h
-        exact ⟨by simp [gwfA, lvl, lvCall, lvPrimary], fun _ => levelOk_of_le (by simp [lvl, chainLvl, lvMember]; pomega),
-          fun _ => rfl, fun _ _ => Nat.le_trans (Nat.min_le_right _ _) (by simp [lvl, chainLvl, lvMember])⟩
-      · cases h
-    | none =>
-      simp only [hd] at h
-      have hpp : (if opMember ≤ p then opMember else opCall) = 17 := by
-        rw [c19, c17]; split <;> (try pomega) <;> rfl
-      rw [hpp] at h
-      cases hx : rec x 17 with
-      | none => simp [hx] at h
-      | some x' =>
-        simp [hx] at h
-        subst h
-        have ix := hrecF _ _ _ (Nat.le_refl _) hwx (by rw [c17] at hfx; exact hfx) hx
-        have l17 : 17 ≤ lvl x' := levelOk_mono ix.lv (Nat.le_refl _) (by decide)
-        have := chainLvl_cases x'
-        exact ⟨by simp [gwfA, ix.g, lvCall, l17], fun _ => levelOk_of_le (by simp [lvl]; pomega), fun _ => rfl,
-          fun _ _ => (by simp [lvl]; pomega)⟩
-  | index x y =>
-    simp only [wfGo, Bool.and_eq_true] at hw
-    obtain ⟨⟨hfx, hwx⟩, hwy⟩ := hw
-    simp only [descend] at h
-    have hpp : (if p < opMember then opCall else opMember) = 17 := by
-      rw [c19, c17]; split <;> (try pomega) <;> rfl
-    rw [hpp] at h
-    cases hx : rec x 17 with
-    | none => simp [hx] at h
-    | some x' =>
-      simp only [hx] at h
-      have ix := hrecF _ _ _ (Nat.le_refl _) hwx (by rw [c17] at hfx; exact hfx) hx
-      have l17 : 17 ≤ lvl x' := levelOk_mono ix.lv (Nat.le_refl _) (by decide)
-      have hc := chainLvl_cases x'
-      have dotcase : ∀ s0, Inv p (.index x y) (.dot x' s0) := fun s0 =>
-        ⟨by simp [gwfA, ix.g, lvCall, l17], fun _ => levelOk_of_le (by simp [lvl]; pomega), fun _ => rfl,
-          fun _ _ => (by simp [lvl]; pomega)⟩
-      have idxcase : ∀ o : Option E, o = rec y opExpr → o.map (E.index x') = some t → Inv p (.index x y) t := by
-        intro o ho hm
-        cases o with
-        | none => simp at hm
-        | some y' =>
-          simp at hm; subst hm
-          have iy := hrecF _ _ _ (by rw [c0]; pomega) hwy (by simp [FitsIn, c0]) ho.symm
-          exact ⟨by simp [gwfA, ix.g, iy.g, lvCall, l17], fun _ => levelOk_of_le (by simp [lvl]; pomega), fun _ => rfl,
-            fun _ _ => (by simp [lvl]; pomega)⟩
-      cases hs : strLit? y with
-      | some s0 =>
-        simp only [hs] at h
-        split at h
-        · injection h with h; subst h; exact dotcase s0
-        · exact idxcase _ rfl h
-      | none =>
-        simp only [hs] at h
-        exact idxcase _ rfl h
+  | dot x name => simp only [descend] at h; exact descLink_gwf rec hrec _ p t hp hw h
+  | index x y => simp only [descend] at h; exact descLink_gwf rec hrec _ p t hp hw h
   | group x =>
     simp only [wfGo] at hw
     simp only [descend] at h
@@ -804,6 +943,8 @@ theorem descend_gwf (rw : E → Prec → Option E) (hok : RwOk rw) (rec : E → 
       simp only [hx1] at h
       obtain ⟨hw1, hsame⟩ := hgi x1 hx1
       split at h
+      · cases h
+      split at h
       · rename_i hdrop
         have hfx : FitsIn p x1 = true := by
           simp only [Bool.or_eq_true, decide_eq_true_eq, Bool.and_eq_true, beq_iff_eq] at hdrop
@@ -812,7 +953,7 @@ theorem descend_gwf (rw : E → Prec → Option E) (hok : RwOk rw) (rec : E → 
           · left; right; exact h1
           · right; exact ⟨h2, h1⟩
         have ix := hrec _ _ _ hp hw1 h
-        refine ⟨ix.g, fun _ => ix.lv hfx, fun ha => ?_, fun hg => by simp [isPlain] at hg⟩
+        refine ⟨ix.g, fun _ => ix.lv hfx, fun ha => ?_, fun hg => by simp [isPlain] at hg, (groupInner_rv rw x x1 t hx1 ix.rv).1⟩
         have hax : assignable x = true := by simpa [assignable, E.inner] using ha
         have := hsame hax
         subst this
@@ -824,31 +965,37 @@ theorem descend_gwf (rw : E → Prec → Option E) (hok : RwOk rw) (rec : E → 
           subst h
           have ix := hrecF _ _ _ (by rw [c0]; pomega) hw1 (by simp [FitsIn, c0]) hx
           refine ⟨by simp [gwfA, ix.g], fun _ => levelOk_of_le (by simp [lvl, lvPrimary]; pomega), fun ha => ?_,
-            fun hg => by simp [isPlain] at hg⟩
+            fun hg => by simp [isPlain] at hg, (groupInner_rv rw x x1 t' hx1 ix.rv).2⟩
           have hax : assignable x = true := by simpa [assignable, E.inner] using ha
           have := hsame hax
           subst this
           simp only [isTarget]
           exact ix.tg hax
-  | call f args =>
-    simp only [wfGo, Bool.and_eq_true] at hw
-    obtain ⟨⟨hff, hwf⟩, hwa⟩ := hw
+  | call f args => simp only [descend] at h; exact descLink_gwf rec hrec _ p t hp hw h
+  | opt a e0 =>
+    simp only [wfGo, Bool.and_eq_true, beq_iff_eq] at hw
+    obtain ⟨hcv, hw0⟩ := hw
     simp only [descend] at h
-    cases hf' : rec f opCall with
-    | none => simp [hf'] at h
-    | some f' =>
-      cases ha : mapO (fun a => rec a opAssign) args with
-      | none => simp [hf', ha] at h
-      | some args' =>
-        simp [hf', ha] at h
-        subst h
-        have i1 := hrecF _ _ _ (by rw [c17]; pomega) hwf hff hf'
-        have l17 : 17 ≤ lvl f' := by
-          have := levelOk_mono i1.lv (Nat.le_refl _) (by rw [c17]; decide)
-          rw [c17] at this; exact this
-        obtain ⟨ga, _⟩ := mapO_items rec hrec args args' ha hwa
-        exact ⟨by simp [gwfA, i1.g, ga, lvCall, l17], fun _ => levelOk_of_le (by simp [lvl, lvCall]; pomega),
-          fun ha' => by simp [assignable, E.inner] at ha', fun _ _ => (by simp [lvl, lvCall]; pomega)⟩
+    split at h
+    · cases h
+    · rename_i hp16
+      split at h
+      · cases h
+      · rename_i hbad
+        rw [if_pos (by simpa using hcv)] at h
+        cases ht : descLink rec e0 p with
+        | none => simp [ht] at h
+        | some t' =>
+          simp [ht] at h
+          subst h
+          have i0 := descLink_gwf rec hrec e0 p t' hp hw0 ht
+          have hau : a ≠ "undefined" := by
+            intro hh; apply hbad; simp [hh]
+          have hroot := (i0.rv a hau (isLink_of_chainVar hcv).2).1
+          have hlink := descLink_isLink rec e0 p t' ht
+          have c16 : opLHS = 16 := by decide
+          refine ⟨by simp [gwfA, i0.g, E.chainVar?, hlink, hroot], fun _ => levelOk_of_le (by simp [lvl, lvLHS]; pomega),
+            fun ha' => by simp [assignable, E.inner] at ha', fun hg => by simp [isPlain] at hg, rv_none rfl⟩
   | cond c x y =>
     simp only [wfGo, Bool.and_eq_true] at hw
     obtain ⟨⟨⟨⟨⟨hfc, hfx⟩, hfy⟩, hwc⟩, hwx⟩, hwy⟩ := hw
@@ -883,7 +1030,7 @@ theorem descend_gwf (rw : E → Prec → Option E) (hok : RwOk rw) (rec : E → 
             have := levelOk_mono iy.lv (Nat.le_refl _) (by rw [c1]; decide); rw [c1] at this; exact this
           exact ⟨by simp [gwfA, ic.g, ixx.g, iy.g, lvShort, lvAssign, lc, lx, ly],
             fun hf => levelOk_of_le (by simp [lvl, lvAssign]; exact hp1 hf),
-            fun ha' => by simp [assignable, E.inner] at ha', fun _ _ => by simp [lvl, lvAssign, hprec, c1]⟩
+            fun ha' => by simp [assignable, E.inner] at ha', fun _ _ => by simp [lvl, lvAssign, hprec, c1], rv_none rfl⟩
   | comma l =>
     simp only [wfGo, Bool.and_eq_true, decide_eq_true_eq] at hw
     obtain ⟨hlen, hitems⟩ := hw
@@ -903,7 +1050,7 @@ theorem descend_gwf (rw : E → Prec → Option E) (hok : RwOk rw) (rec : E → 
       subst h
       obtain ⟨g, hlen'⟩ := mapO_items rec hrec l l' hl hitems
       exact ⟨by simp [gwfA, g, hlen', hlen], fun hf => (by rw [hp0 hf]; simp [levelOk]),
-        fun ha' => by simp [assignable, E.inner] at ha', fun _ _ => (by rw [hprec, c0]; simp)⟩
+        fun ha' => by simp [assignable, E.inner] at ha', fun _ _ => (by rw [hprec, c0]; simp), rv_none rfl⟩
 
 /-- the output of the traversal with any acceptable node rewriter is a derivation tree that fits its context -/
 theorem minGen_gwf (rw : E → Prec → Option E) (hok : RwOk rw) : ∀ (fuel : Nat) (e : E) (p : Prec) (t : E), p ≤ 17 →
@@ -919,7 +1066,7 @@ theorem minGen_gwf (rw : E → Prec → Option E) (hok : RwOk rw) : ∀ (fuel : 
     | some e1 =>
       simp only [hr] at h
       have i1 := descend_gwf rw hok (minGen rw n) ih e1 p t hp (hok.wf e p e1 hp hw hr) h
-      refine ⟨i1.g, fun hf => i1.lv (hok.fit e p e1 hp hw hf hr), fun ha => ?_, fun hpl hne => ?_⟩
+      refine ⟨i1.g, fun hf => i1.lv (hok.fit e p e1 hp hw hf hr), fun ha => ?_, fun hpl hne => ?_, (fun a ha h => by have he := hok.chain e p e1 (by rw [h]; simp) hr; subst he; exact i1.rv a ha h)⟩
       · have := hok.plain e p e1 hr (Or.inr ha)
         subst this; exact i1.tg ha
       · have := hok.plain e p e1 hr (Or.inl hpl)
@@ -932,8 +1079,8 @@ theorem printT_gwf (fuel : Nat) (e : E) (p : Prec) (t : E) (hp : p ≤ 17) (hw :
 
 /-! ## the parser's trees: every derivation tree of the (strict) grammar has the shape `wfGo` -/
 
-/-- Go's `exprPrec` of a node that is not a group is the level of its production -/
-theorem prec_eq_lvl (x : E) (h : x.isGroup = false) : x.prec = lvl x := by
+/-- Go's `exprPrec` of a node that is neither a group nor an optional chain is the level of its production -/
+theorem prec_eq_lvl (x : E) (h : x.isGroup = false) (ho : x.isOpt = false) : x.prec = lvl x := by
   cases x with
   | var n => simp only [E.prec, lvl]; decide
   | lit l => simp only [E.prec, lvl]; decide
@@ -945,12 +1092,26 @@ theorem prec_eq_lvl (x : E) (h : x.isGroup = false) : x.prec = lvl x := by
   | dot y n => simp only [E.prec, lvl, memberPrec_eq]
   | index y z => simp only [E.prec, lvl, memberPrec_eq]
   | group y => simp [E.isGroup] at h
+  | opt a e => simp [E.isOpt] at ho
 
-theorem fitsIn_of_lvl (p : Prec) (x : E) (h : p ≤ lvl x) : FitsIn p x = true := by
-  cases hg : x.isGroup
-  · have := prec_eq_lvl x hg
-    simp [FitsIn, hg, this, h]
-  · simp [FitsIn, hg]
+/-- … and for an optional chain (a `LeftHandSideExpression`) Go's value is that of the chain (`OpCall`/`OpMember`) -/
+theorem lvl_le_prec (x : E) (h : x.isGroup = false) (hg : gwf x = true) : lvl x ≤ x.prec := by
+  cases ho : x.isOpt
+  · exact Nat.le_of_eq (prec_eq_lvl x h ho).symm
+  · cases x with
+    | opt a e =>
+      simp only [gwf, Bool.and_eq_true, beq_iff_eq] at hg
+      have := prec_link e (isLink_of_chainVar hg.1).1
+      simp only [lvl, lvLHS, E.prec]
+      pomega
+    | _ => simp [E.isOpt] at ho
+
+theorem fitsIn_of_lvl (p : Prec) (x : E) (h : p ≤ lvl x) (hg : gwf x = true) : FitsIn p x = true := by
+  cases hgr : x.isGroup
+  · have := lvl_le_prec x hgr hg
+    simp only [FitsIn, hgr, Bool.false_or, Bool.or_eq_true, decide_eq_true_eq]
+    left; pomega
+  · simp [FitsIn, hgr]
 
 theorem t_right_le (op : BOp) : op.right ≤ opRight op ∧ op.left ≤ 17 := by
   have : ∀ o ∈ BOp.all, o.right ≤ opRight o ∧ o.left ≤ 17 := by decide
@@ -964,7 +1125,7 @@ theorem wfGoItems_of (l : List E) (ih : ∀ a ∈ l, gwf a = true → wfGo a = t
     simp only [gwfItems, Bool.and_eq_true, decide_eq_true_eq] at h
     have c1 : opAssign = 1 := by decide
     simp only [wfGoItems, Bool.and_eq_true]
-    refine ⟨⟨fitsIn_of_lvl _ _ (by rw [c1]; simpa [lvAssign] using h.1.1), ih a (List.mem_cons_self) h.1.2⟩,
+    refine ⟨⟨fitsIn_of_lvl _ _ (by rw [c1]; simpa [lvAssign] using h.1.1) h.1.2, ih a (List.mem_cons_self) h.1.2⟩,
       iht (fun b hb => ih b (List.mem_cons_of_mem _ hb)) h.2⟩
 
 theorem leftOk_nullish (x : E) (h : leftOk .nullish x = true) : lvBitOr ≤ lvl x ∨ ∃ a b, x = .bin .nullish a b := by
@@ -993,10 +1154,10 @@ theorem gwf_wfGo (e : E) (h : gwf e = true) : wfGo e = true := by
     · have h16 := u4 hpost
       have : lvLHS ≤ lvl x := by
         rcases hpost with rfl | rfl <;> exact (by simpa [isUpdateOp] using hup : _ ∧ lvLHS ≤ lvl x).2
-      exact fitsIn_of_lvl _ _ (by rw [h16]; simpa [lvLHS] using this)
+      exact fitsIn_of_lvl _ _ (by rw [h16]; simpa [lvLHS] using this) hg
     · have harg : op.argPrec = 14 := by
         cases op <;> first | (exfalso; exact hpost (Or.inl rfl)) | (exfalso; exact hpost (Or.inr rfl)) | decide
-      exact fitsIn_of_lvl _ _ (by rw [harg]; simpa [lvUnary] using h14)
+      exact fitsIn_of_lvl _ _ (by rw [harg]; simpa [lvUnary] using h14) hg
   | hbin op x y ihx ihy =>
     simp only [gwf, Bool.and_eq_true, decide_eq_true_eq] at h
     obtain ⟨⟨⟨⟨hl, hr⟩, _⟩, hgx⟩, hgy⟩ := h
@@ -1008,7 +1169,7 @@ theorem gwf_wfGo (e : E) (h : gwf e = true) : wfGo e = true := by
       · subst hn
         have h5 : BOp.nullish.left = 5 := by decide
         rcases leftOk_nullish x hl with hl | ⟨a, b, rfl⟩
-        · have := fitsIn_of_lvl BOp.nullish.left x (by rw [h5]; simpa [lvBitOr] using hl)
+        · have := fitsIn_of_lvl BOp.nullish.left x (by rw [h5]; simpa [lvBitOr] using hl) hgx
           simp [this]
         · have hp : (E.bin BOp.nullish a b).prec = 2 := by simp only [E.prec]; decide
           simp [FitsIn, E.isGroup, hp, h5, c5, c2]
@@ -1017,16 +1178,17 @@ theorem gwf_wfGo (e : E) (h : gwf e = true) : wfGo e = true := by
         rw [hform] at hl
         have hle : opLeft op ≤ lvl x := by simpa using hl
         cases hg : x.isGroup
-        · have := prec_eq_lvl x hg
-          simp [hg, this, hle]
+        · have := lvl_le_prec x hg hgx
+          simp only [FitsIn, hg, Bool.false_or, Bool.not_false, Bool.true_and, Bool.or_eq_true, decide_eq_true_eq]
+          right; pomega
         · simp [FitsIn, hg]
-    · exact fitsIn_of_lvl _ _ (Nat.le_trans (t_right_le op).1 hr)
+    · exact fitsIn_of_lvl _ _ (Nat.le_trans (t_right_le op).1 hr) hgy
   | hcond c x y ihc ihx ihy =>
     simp only [gwf, Bool.and_eq_true, decide_eq_true_eq] at h
     obtain ⟨⟨⟨⟨⟨h1, h2⟩, h3⟩, g1⟩, g2⟩, g3⟩ := h
     simp only [wfGo, Bool.and_eq_true]
-    exact ⟨⟨⟨⟨⟨fitsIn_of_lvl _ _ (by rw [c2]; simpa [lvShort] using h1), fitsIn_of_lvl _ _ (by rw [c1]; simpa [lvAssign] using h2)⟩,
-      fitsIn_of_lvl _ _ (by rw [c1]; simpa [lvAssign] using h3)⟩, ihc g1⟩, ihx g2⟩, ihy g3⟩
+    exact ⟨⟨⟨⟨⟨fitsIn_of_lvl _ _ (by rw [c2]; simpa [lvShort] using h1) g1, fitsIn_of_lvl _ _ (by rw [c1]; simpa [lvAssign] using h2) g2⟩,
+      fitsIn_of_lvl _ _ (by rw [c1]; simpa [lvAssign] using h3) g3⟩, ihc g1⟩, ihx g2⟩, ihy g3⟩
   | hcomma l ih =>
     simp only [gwf, Bool.and_eq_true, decide_eq_true_eq] at h
     simp only [wfGo, Bool.and_eq_true, decide_eq_true_eq]
@@ -1035,18 +1197,22 @@ theorem gwf_wfGo (e : E) (h : gwf e = true) : wfGo e = true := by
     simp only [gwf, Bool.and_eq_true, decide_eq_true_eq] at h
     obtain ⟨⟨h1, g1⟩, g2⟩ := h
     simp only [wfGo, Bool.and_eq_true]
-    exact ⟨⟨fitsIn_of_lvl _ _ (by rw [c17]; simpa [lvCall] using h1), ihf g1⟩, wfGoItems_of args iha g2⟩
+    exact ⟨⟨fitsIn_of_lvl _ _ (by rw [c17]; simpa [lvCall] using h1) g1, ihf g1⟩, wfGoItems_of args iha g2⟩
   | hdot x n ih =>
     simp only [gwf, Bool.and_eq_true, decide_eq_true_eq] at h
     simp only [wfGo, Bool.and_eq_true]
-    exact ⟨fitsIn_of_lvl _ _ (by rw [c17]; simpa [lvCall] using h.1), ih h.2⟩
+    exact ⟨fitsIn_of_lvl _ _ (by rw [c17]; simpa [lvCall] using h.1) h.2, ih h.2⟩
   | hindex x y ihx ihy =>
     simp only [gwf, Bool.and_eq_true, decide_eq_true_eq] at h
     simp only [wfGo, Bool.and_eq_true]
-    exact ⟨⟨fitsIn_of_lvl _ _ (by rw [c17]; simpa [lvCall] using h.1.1), ihx h.1.2⟩, ihy h.2⟩
+    exact ⟨⟨fitsIn_of_lvl _ _ (by rw [c17]; simpa [lvCall] using h.1.1) h.1.2, ihx h.1.2⟩, ihy h.2⟩
   | hgroup x ih =>
     simp only [gwf] at h
     simp only [wfGo]
     exact ih h
+  | hopt a e ih =>
+    simp only [gwf, Bool.and_eq_true] at h
+    simp only [wfGo, Bool.and_eq_true]
+    exact ⟨h.1, ih h.2⟩
 
 end Verif.Proofs.JsPrintGwf
